@@ -14,7 +14,10 @@
    authenticator is one with [auth_outcome a = AR_rej st]: AuthFailure (also
    wrapped), ValueError, PermissionError -> 401; AuthUnavailable (also wrapped)
    -> 503; any other error (incl. a wrapped ValueError) -> 500; (nil, nil) ->
-   st = 200: nothing is written and the handler returns.
+   st = 200: nothing is written and the handler returns. An authenticator
+   script has a second component, [ctx : ctxc]: the *AuthContext returned
+   TOGETHER WITH the error (nil / alice / the introspector); every theorem
+   quantifies over it.
    Finite domain used by computation: the feature lattice, 2^11 = 2048
    configurations (prefix, landing/describe/not-found page, sticky, PKCE, custom
    routes, upload provider, introspection, OAuth metadata, CORS) x the
@@ -32,10 +35,10 @@ Local Open Scope N_scope.
    the authenticator, every rejecting outcome and EVERY request handed to that
    route: the handler's result is the auth-layer status, an empty work trace,
    authenticator consulted — nothing else. *)
-Theorem rejected_route_does_no_work : forall c a r path_segments q st,
+Theorem rejected_route_does_no_work : forall c a ctx r path_segments q st,
   auth_outcome a = AR_rej st ->
   auth_required c (pkce_on c a) r = true ->
-  run_route c a r path_segments q = (st, [], true).
+  run_route c a ctx r path_segments q = (st, [], true).
 Proof. exact rejected_route. Qed.
 
 (* Request level, through ServeHTTP and the mux: whatever the method, path
@@ -43,12 +46,26 @@ Proof. exact rejected_route. Qed.
    requires authentication and the authenticator rejects, no handler, stream
    state, rehydration, resolver, provider, describe builder or hook runs, the
    body is not even read, and the status is the authenticator's. *)
-Theorem rejected_request_does_no_work : forall c a q r st,
+Theorem rejected_request_does_no_work : forall c a ctx q r st,
   auth_outcome a = AR_rej st ->
   routed c a q = Some r ->
   auth_required c (pkce_on c a) r = true ->
-  o_work (serve c a q) = [] /\ o_status (serve c a q) = st /\ o_consulted (serve c a q) = true.
+  o_work (serve c a ctx q) = [] /\ o_status (serve c a ctx q) = st
+  /\ o_consulted (serve c a ctx q) = true /\ o_body (serve c a ctx q) = Some (bk_of st).
 Proof. exact rejected_request. Qed.
+
+(* The verdict is a function of the ERROR component of what the
+   AuthenticateFunc returned, never of the context component: an
+   identified-but-refused caller (non-nil *AuthContext together with the
+   error) gets, on every gated route, exactly the response of one for whom the
+   callback returned (nil, err) - same status, same empty work trace, same
+   body. ([ctx] is universally quantified in the two theorems above as well.) *)
+Theorem verdict_ignores_returned_context : forall c a ctx ctx' q r st,
+  auth_outcome a = AR_rej st ->
+  routed c a q = Some r ->
+  auth_required c (pkce_on c a) r = true ->
+  serve c a ctx q = serve c a ctx' q.
+Proof. exact context_irrelevant. Qed.
 
 (* Which routes those are: every RPC route (unary — which also serves
    __describe__ —, stream init, exchange / continuation) and every control
@@ -80,9 +97,9 @@ Proof. exact ungated_open. Qed.
    closing the caller's own anonymous session, the token proxy reading its
    form): never a method handler, stream state, rehydration, resolver,
    provider, describe batch or dispatch hook. *)
-Theorem open_routes_exactly : forall c a q st,
+Theorem open_routes_exactly : forall c a ctx q st,
   auth_outcome a = AR_rej st ->
-  let o := serve c a q in
+  let o := serve c a ctx q in
   (o_work o = [] /\ o_status o = st /\ o_consulted o = true)
   \/ (q_meth q = M_OPTIONS /\ o_status o = 204 /\ o_work o = [] /\ o_consulted o = false)
   \/ (q_meth q <> M_OPTIONS /\ routed c a q = None /\ o_work o = [] /\ o_consulted o = false
@@ -98,7 +115,8 @@ Proof. exact unauthenticated_reach. Qed.
 Theorem open_classes_are_reachable : forall k,
   In k open_classes ->
   exists c q r, routed c A_fail q = Some r /\ route_class r = k
-                /\ o_consulted (serve c A_fail q) = false /\ o_status (serve c A_fail q) <> 401.
+                /\ o_consulted (serve c A_fail CX_alice q) = false
+                /\ o_status (serve c A_fail CX_alice q) <> 401.
 Proof. exact open_classes_reachable. Qed.
 
 (* A request is only ever handed to a route that the configuration registered
@@ -138,9 +156,9 @@ Proof. exact spec_ok_model. Qed.
 Theorem upload_url_legacy_refuted :
   exists c a q, rejecting a = true /\ routed c a q = Some R_upload
                 /\ auth_required c (pkce_on c a) R_upload = true
-                /\ In W_provider (o_work (serve_gen true c a q))
-                /\ o_status (serve_gen true c a q) = 200
-                /\ spec_ok (Probe c a q) (model_legacy (Probe c a q)) = false.
+                /\ In W_provider (o_work (serve_gen true c a CX_nil q))
+                /\ o_status (serve_gen true c a CX_nil q) = 200
+                /\ spec_ok (Probe c a CX_nil q) (model_legacy (Probe c a CX_nil q)) = false.
 Proof. exact legacy_refuted. Qed.
 
 (* ---- non-vacuity ----------------------------------------------------------- *)
@@ -154,21 +172,32 @@ Example rejected_premises_met :
   auth_outcome A_unavail = AR_rej 503
   /\ routed (cfgm 2047) A_unavail ex_req = Some R_exchange
   /\ auth_required (cfgm 2047) (pkce_on (cfgm 2047) A_unavail) R_exchange = true
-  /\ o_status (serve (cfgm 2047) A_unavail ex_req) = 503
-  /\ o_work (serve (cfgm 2047) A_ok ex_req) = [W_body; W_hook; W_state; W_rehydrate].
+  /\ o_status (serve (cfgm 2047) A_unavail CX_alice ex_req) = 503
+  /\ o_body (serve (cfgm 2047) A_unavail CX_alice ex_req) = Some BK_rej503
+  /\ o_work (serve (cfgm 2047) A_ok CX_nil ex_req) = [W_body; W_hook; W_state; W_rehydrate].
 Proof. vm_compute. repeat split. Qed.
 
 (* the fourth disjunct of open_routes_exactly is inhabited with non-empty work *)
 Example open_route_with_work :
-  o_work (serve (cfgm 2047) A_fail
+  o_work (serve (cfgm 2047) A_fail CX_nil
             {| q_meth := M_DELETE; q_path := str "/vgi/__session__"; q_ctype := CT_none;
                q_body := B_none; q_sess := S_anon; q_html := false |}) = [W_session_close].
 Proof. vm_compute. reflexivity. Qed.
 
 (* (nil, nil) from the authenticator: an empty 200, no work *)
 Example nilnil_is_a_silent_200 :
-  let o := serve (cfgm 2047) A_nilnil
+  let o := serve (cfgm 2047) A_nilnil CX_nil
              {| q_meth := M_POST; q_path := str "/vgi/u_int"; q_ctype := CT_arrow;
                 q_body := B_req (str "u_int"); q_sess := S_none; q_html := false |} in
-  o_status o = 200 /\ o_work o = [] /\ o_consulted o = true.
+  o_status o = 200 /\ o_work o = [] /\ o_consulted o = true /\ o_body o = Some BK_empty.
 Proof. vm_compute. repeat split. Qed.
+
+(* the one place the returned context is looked at despite the error: the
+   best-effort principal of the open session-delete route (no PKCE chain):
+   a refused-but-identified alice closes alice's own session *)
+Example session_delete_uses_returned_context :
+  let q := {| q_meth := M_DELETE; q_path := str "/vgi/__session__"; q_ctype := CT_none;
+              q_body := B_none; q_sess := S_alice; q_html := false |} in
+  o_work (serve (cfgm 2015) A_fail CX_alice q) = [W_session_close]
+  /\ o_work (serve (cfgm 2015) A_fail CX_nil q) = [].
+Proof. vm_compute. split; reflexivity. Qed.
